@@ -241,157 +241,30 @@ impl Shared {
     }
 }
 
-/// number of valid presence masks when only the bits in `free` vary (others fixed as in `base`)
-pub fn count_masks(plan: &Plan, free: u64, base: u64) -> u64 {
-    // brute recursion over the forest of optional members
-    fn c(plan: &Plan, i: usize, free: u64, base: u64) -> u64 {
-        // number of configurations of the subtree rooted at i given that i is present
-        let mut n = 1u64;
-        for (j, o) in plan.opts.iter().enumerate() {
-            if o.parent == Some(i) {
-                n *= sub(plan, j, free, base);
-            }
-        }
-        n
-    }
-    fn sub(plan: &Plan, j: usize, free: u64, base: u64) -> u64 {
-        if free >> j & 1 == 1 {
-            1 + c(plan, j, free, base)
-        } else if base >> j & 1 == 1 {
-            c(plan, j, free, base)
-        } else {
-            1
-        }
-    }
-    let mut n = 1u64;
-    for (j, o) in plan.opts.iter().enumerate() {
-        if o.parent.is_none() {
-            n *= sub(plan, j, free, base);
-        }
-    }
-    n
-}
-
-/// Presence lattice: state = set of present optional members; one transition flips one member
-/// (removing a parent removes its children). Starts from both the minimal and the full message.
-pub struct Lattice<F: Fn(&Shared, u64) -> Verdict + Send + Sync + 'static> {
-    pub sh: Arc<Shared>,
-    /// bits that may vary; the others stay as in `base`
-    pub free: u64,
-    pub base: u64,
-    pub label: String,
-    pub check: F,
-}
-
-impl<F: Fn(&Shared, u64) -> Verdict + Send + Sync + 'static> Space for Lattice<F> {
-    type S = u64;
-    type A = (bool, usize);
-    fn name(&self) -> String {
-        format!("{} presence lattice {}", self.sh.target.name(), self.label)
-    }
-    fn init(&self) -> Vec<u64> {
-        let lo = self.sh.plan.normalize(self.base & !self.free);
-        let hi = self.sh.plan.normalize(self.base | self.free);
-        if lo == hi {
-            vec![lo]
-        } else {
-            vec![lo, hi]
-        }
-    }
-    fn actions(&self, s: &u64, out: &mut Vec<(bool, usize)>) {
-        for i in 0..self.sh.plan.opts.len() {
-            if self.free >> i & 1 == 1 {
-                out.push((s >> i & 1 == 0, i));
-            }
-        }
-    }
-    fn next(&self, s: &u64, a: &(bool, usize)) -> Option<u64> {
-        let (add, i) = *a;
-        let n = if add { s | 1 << i } else { s & !(1 << i) };
-        let n = self.sh.plan.normalize(n);
-        if n == *s {
-            None
-        } else {
-            Some(n)
-        }
-    }
-    fn check(&self, s: &u64) -> Verdict {
-        (self.check)(&self.sh, *s)
-    }
-    fn case(&self, s: &u64) -> Value {
-        let wire = self.sh.plan.build(*s, &[]);
-        case_json(&self.sh.target, &wire, json!({"mask": self.sh.plan.describe_mask(*s)}))
-    }
-    fn nontrivial(&self, s: &u64) -> bool {
-        *s != 0
+/// request lattice / deviation spaces for a decode target: real decoder vs reference decoder
+pub fn request_lattice(prop: &'static str, sh: &Arc<Shared>, free: u64, base: u64, radius: Option<u32>, label: &str) -> crate::spaces::Lattice {
+    let (a, b) = (sh.clone(), sh.clone());
+    crate::spaces::Lattice {
+        plan: Arc::new(sh.plan.clone()),
+        free,
+        base,
+        radius,
+        name: format!("{} presence lattice {}", sh.target.name(), label),
+        check: Box::new(move |mask| compare(prop, &a.target, &a.plan.build(mask, &[]))),
+        case: Box::new(move |mask| case_json(&b.target, &b.plan.build(mask, &[]), json!({"mask": b.plan.describe_mask(mask)}))),
     }
 }
 
-/// Bounded value deviations from an anchor: state = (anchor mask, sorted set of (leaf, menu
-/// index)); one transition moves one more leaf away from its default.
-pub struct Deviations<F: Fn(&Shared, u64, &[(usize, usize)]) -> Verdict + Send + Sync + 'static> {
-    pub sh: Arc<Shared>,
-    pub anchors: Vec<u64>,
-    pub bound: usize,
-    pub check: F,
-}
-
-pub fn count_deviations(plan: &Plan, mask: u64, bound: usize) -> u64 {
-    // elementary symmetric polynomials of (menu size - 1) over enabled leaves
-    let sizes: Vec<u64> = plan
-        .leaves
-        .iter()
-        .enumerate()
-        .filter(|(i, _)| plan.leaf_enabled(*i, mask))
-        .map(|(_, l)| l.menu.len() as u64 - 1)
-        .collect();
-    let mut e = vec![0u64; bound + 1];
-    e[0] = 1;
-    for s in sizes {
-        for k in (1..=bound).rev() {
-            e[k] += e[k - 1] * s;
-        }
-    }
-    e.iter().sum()
-}
-
-impl<F: Fn(&Shared, u64, &[(usize, usize)]) -> Verdict + Send + Sync + 'static> Space for Deviations<F> {
-    type S = (u64, Vec<(usize, usize)>);
-    type A = (usize, usize);
-    fn name(&self) -> String {
-        format!("{} value deviations <= {}", self.sh.target.name(), self.bound)
-    }
-    fn init(&self) -> Vec<Self::S> {
-        self.anchors.iter().map(|m| (*m, vec![])).collect()
-    }
-    fn actions(&self, s: &Self::S, out: &mut Vec<(usize, usize)>) {
-        if s.1.len() >= self.bound {
-            return;
-        }
-        for (l, info) in self.sh.plan.leaves.iter().enumerate() {
-            if !self.sh.plan.leaf_enabled(l, s.0) || s.1.iter().any(|(x, _)| *x == l) {
-                continue;
-            }
-            for idx in 1..info.menu.len() {
-                out.push((l, idx));
-            }
-        }
-    }
-    fn next(&self, s: &Self::S, a: &(usize, usize)) -> Option<Self::S> {
-        let mut d = s.1.clone();
-        d.push(*a);
-        d.sort();
-        Some((s.0, d))
-    }
-    fn check(&self, s: &Self::S) -> Verdict {
-        (self.check)(&self.sh, s.0, &s.1)
-    }
-    fn case(&self, s: &Self::S) -> Value {
-        let wire = self.sh.plan.build(s.0, &s.1);
-        let devs: Vec<String> = s.1.iter().map(|(l, i)| format!("{}#{}", self.sh.plan.leaves[*l].path, i)).collect();
-        case_json(&self.sh.target, &wire, json!({"mask": self.sh.plan.describe_mask(s.0), "deviations": devs}))
-    }
-    fn nontrivial(&self, s: &Self::S) -> bool {
-        !s.1.is_empty()
+pub fn request_deviations(prop: &'static str, sh: &Arc<Shared>, anchors: Vec<u64>, bound: usize) -> crate::spaces::Deviations {
+    let (a, b) = (sh.clone(), sh.clone());
+    crate::spaces::Deviations {
+        plan: Arc::new(sh.plan.clone()),
+        anchors,
+        bound,
+        name: format!("{} value deviations <= {}", sh.target.name(), bound),
+        check: Box::new(move |mask, devs| compare(prop, &a.target, &a.plan.build(mask, devs))),
+        case: Box::new(move |mask, devs| {
+            case_json(&b.target, &b.plan.build(mask, devs), json!({"mask": b.plan.describe_mask(mask), "deviations": crate::spaces::describe_devs(&b.plan, devs)}))
+        }),
     }
 }
